@@ -301,6 +301,18 @@ func optAttr(as []attr, k string, v *string) []attr {
 	return as
 }
 
+// extra returns the producer's additional attributes for element of (and the declaration xsi needs).
+func (w *xw) extra(a *LAssertion, of string, as []attr) ([]attr, []attr) {
+	var ns []attr
+	for _, kv := range a.ExtraAttrs[of] {
+		as = append(as, attr{kv[0], kv[1]})
+		if strings.HasPrefix(kv[0], "xsi:") && len(ns) == 0 {
+			ns = []attr{{"xmlns:xsi", NSXsi}}
+		}
+	}
+	return as, ns
+}
+
 // twins writes the foreign-namespace namesakes the logical assertion asks for after element of.
 func (w *xw) twins(a *LAssertion, of string) {
 	for _, tw := range a.Twins {
@@ -373,7 +385,8 @@ func (w *xw) assertion(a *LAssertion, st nsStyle, standalone bool) {
 					sa = append([]attr{{"x500:Recipient", "https://vendor.example/recipient-hint"}, {"x500:InResponseTo", "_vendor_irt"}}, sa...)
 					scdNS = []attr{{"xmlns:x500", "urn:oasis:names:tc:SAML:2.0:profiles:attribute:X500"}}
 				}
-				w.open(A+"SubjectConfirmationData", scdNS, sa, true)
+				sa, xns := w.extra(a, "SubjectConfirmationData", sa)
+				w.open(A+"SubjectConfirmationData", append(scdNS, xns...), sa, true)
 				w.twins(a, "SubjectConfirmationData")
 				w.depth--
 				w.nl()
@@ -391,7 +404,8 @@ func (w *xw) assertion(a *LAssertion, st nsStyle, standalone bool) {
 		ca = optAttr(ca, "NotBefore", a.NotBefore)
 		ca = optAttr(ca, "NotOnOrAfter", a.NotOnOrAfter)
 		empty := len(a.AudienceRestrictions) == 0 && !a.OneTimeUse && a.Proxy == nil
-		w.open(A+"Conditions", nil, ca, empty)
+		ca, cns := w.extra(a, "Conditions", ca)
+		w.open(A+"Conditions", cns, ca, empty)
 		if !empty {
 			w.depth++
 			for _, ar := range a.AudienceRestrictions {
@@ -418,7 +432,8 @@ func (w *xw) assertion(a *LAssertion, st nsStyle, standalone bool) {
 				if a.Proxy.CountLit != "" {
 					cnt = a.Proxy.CountLit
 				}
-				w.open(A+"ProxyRestriction", nil, []attr{{"Count", cnt}}, len(a.Proxy.Audiences) == 0)
+				pa, pns := w.extra(a, "ProxyRestriction", []attr{{"Count", cnt}})
+				w.open(A+"ProxyRestriction", pns, pa, len(a.Proxy.Audiences) == 0)
 				if len(a.Proxy.Audiences) > 0 {
 					w.depth++
 					for _, au := range a.Proxy.Audiences {
@@ -450,7 +465,8 @@ func (w *xw) assertion(a *LAssertion, st nsStyle, standalone bool) {
 			aa = append(aa, attr{"SessionIndex", a.Authn.SessionIndex})
 		}
 		aa = optAttr(aa, "SessionNotOnOrAfter", a.Authn.SessionNotOnOrAfter)
-		w.open(A+"AuthnStatement", nil, aa, a.Authn.ClassRef == nil)
+		aa, ans := w.extra(a, "AuthnStatement", aa)
+		w.open(A+"AuthnStatement", ans, aa, a.Authn.ClassRef == nil)
 		if a.Authn.ClassRef != nil {
 			w.depth++
 			w.nl()
